@@ -553,3 +553,11 @@ seed('c01-goalstates-first-only', 'C01', [(GSSC, "        if (d < dist)\n       
 seed('c01-goalstates-max', 'C01', [(GSSC, "        if (d < dist)\n            dist = d;", "        if (d < dist || dist == std::numeric_limits<double>::infinity())\n            dist = d;\n        else if (d > dist)\n            dist = d;")], 'R01u')
 seed('c01-n-goalregion-local-verdict', 'C01', [(GRC, "    if (distance != nullptr)\n        *distance = d2g;\n    return d2g < threshold_;", "    const bool inside = d2g < threshold_;\n    if (distance != nullptr)\n        *distance = d2g;\n    return inside;")], None)
 seed('c01-n-goalstates-min-call', 'C01', [(GSSC, "        if (d < dist)\n            dist = d;", "        dist = std::min(dist, d);")], None)
+# R04n: registration round trip of ProblemDefinition
+PDH = 'src/ompl/base/ProblemDefinition.h'
+seed('c04-addsolution-flag-inverted', 'C04', [(PD, "    if (approximate)\n        sol.setApproximate(difference);", "    if (!approximate)\n        sol.setApproximate(difference);")], 'R04n')
+seed('c04-setapproximate-forgets-flag', 'C04', [(PDH, "                approximate_ = true;\n                difference_ = difference;", "                difference_ = difference;")], 'R04n')
+seed('c04-getdifference-reads-last', 'C04', [(PD, "                    diff = solutions_[0].difference_;", "                    diff = solutions_.back().difference_;")], 'R04a')
+seed('c04-isapproximate-reads-optimized', 'C04', [(PD, "                    result = solutions_[0].approximate_;", "                    result = solutions_[0].optimized_;")], 'R04n')
+seed('c04-clear-keeps-solutions', 'C04', [(PD, "void ompl::base::ProblemDefinition::clearSolutionPaths() const\n{\n    solutions_->clear();", "void ompl::base::ProblemDefinition::clearSolutionPaths() const\n{\n    solutions_->getSolutionCount();")], 'R04n')
+seed('c04-n-isapproximate-front', 'C04', [(PD, "                    result = solutions_[0].approximate_;", "                    result = solutions_.front().approximate_;")], None)
